@@ -96,7 +96,7 @@ func runPipe(delim byte, failAt int, chunks []string, pauses []int) string {
 		default:
 			res = "R:other"
 		}
-	case <-time.After(10 * time.Second):
+	case <-time.After(10*time.Second + time.Duration(totalPause(pauses))*time.Microsecond):
 		res = "R:hang"
 		noteHang()
 		cancel()
@@ -110,6 +110,14 @@ func runPipe(delim byte, failAt int, chunks []string, pauses []int) string {
 		out = append(out, "D:"+hx(rec))
 	}
 	return strings.Join(append(out, res), ";")
+}
+
+func totalPause(p []int) int {
+	t := 0
+	for _, x := range p {
+		t += x
+	}
+	return t
 }
 
 func init() {
